@@ -28,7 +28,7 @@ def run_prophyc(argv):
     return nodes, err.getvalue()
 
 
-def compile_python(text, workdir, stem, extra_argv=()):
+def compile_python(text, workdir, stem, extra_argv=(), shift_envs=None):
     """Write `text` as <stem>.prophy, compile with --python_out, import.
     Returns (module, model nodes for this file)."""
     path = os.path.join(workdir, stem + ".prophy")
@@ -38,7 +38,41 @@ def compile_python(text, workdir, stem, extra_argv=()):
         nodes, _ = run_prophyc([path, "--python_out", workdir] + list(extra_argv))
     except BaseException as e:  # noqa
         raise CompileFailure("prophyc", "%s: %s" % (type(e).__name__, str(e)[:2000]))
+    if shift_envs:
+        patch_shifts(workdir, stem, shift_envs)
     return import_generated(workdir, stem), nodes[stem]
+
+
+def patch_shifts(workdir, stem, envs):
+    """Rewrite the generated module so that the arrays the schema gives a bound
+    shift (field n of dyn/ext members) are declared with shift=s - prophyc
+    itself never emits the keyword; this is the hand-written-codec feature."""
+    import re
+    path = os.path.join(workdir, stem + ".py")
+    with open(path) as f:
+        lines = f.read().split("\n")
+    want = {}
+    for env in envs:
+        for i, d in enumerate(env.defs, 1):
+            if d["k"] == "struct":
+                for j, m in enumerate(d["ms"], 1):
+                    if m["f"] in ("dyn", "ext") and m["n"] > 0:
+                        want[(env.name(i), env.mname(i, j))] = m["n"]
+    cur, done = None, set()
+    for k, line in enumerate(lines):
+        mcls = re.match(r"class (\w+)\(", line)
+        if mcls:
+            cur = mcls.group(1)
+            continue
+        mfld = re.match(r"\s+\('(\w+)', prophy\.(array|bytes)\((.*)\)\),\s*$", line)
+        if mfld and (cur, mfld.group(1)) in want:
+            sh = want[(cur, mfld.group(1))]
+            lines[k] = line.rstrip()[:-3] + ", shift=%d))," % sh
+            done.add((cur, mfld.group(1)))
+    if done != set(want):
+        raise CompileFailure("patch_shifts", "descriptor lines not found for %r" % sorted(set(want) - done))
+    with open(path, "w") as f:
+        f.write("\n".join(lines))
 
 
 def import_generated(workdir, stem):
